@@ -30,6 +30,10 @@ CHECKS = {
             "TLC checks that with trimming/expansion off the bytes between consecutive positions are exactly open delimiter + payload + close delimiter of the returned event (DOCTYPE up to keyword case/spacing), that spans tile the input and the final position is its length. TLC emits for every behaviour the positions and the concatenated rendering of all events; the harness compares buffer_position after every call and the bytes produced by Writer::write_event on slice and chunked sources. Corpus and generated traces are validated by TLC.",
             "Bounded scope; Writer::write_event is specified only for events read from the input (C09 covers constructors).",
             "DESIGN.md section 6 C08"),
+    "C09": ("TLA+ spec of the event constructors, ElementWriter and Writer (Writer.tla) composed with the reader/attribute/escape specs; construction sequences model-checked for read-back identity; replay with the real constructors and writers; trace validation",
+            "TLC explores every sequence of <= M construction descriptors (BytesStart::new with push/extend/clear/set_name edits, BytesText::new, BytesCData::escaped, comments, PIs, BytesDecl::new, DOCTYPE, ElementWriter) with payloads from a markup-heavy pool and checks that the bytes the writer spec produces read back - through the reader, attribute and escape specs - as exactly the constructed logical events (text coalesced, empty dropped, every attribute value/text unescaping to the original). The same sequences are built with the real constructors, written with the sync and async writers (bytes must be equal), read back with the real reader and compared with the spec's logical events; random longer sequences are validated by TLC.",
+            "Constructor preconditions as documented. Exact output spelling is tagged I (drift), read-back identity and sync=async are P.",
+            "DESIGN.md section 6 C09"),
     "C10": ("TLA+ transcription of escape/unescape/parse_number (Escape.tla) with round-trip theorems model-checked; TLC-generated strings replayed on the real functions; real results (incl. all code points in both radices) validated by TLC",
             "TLC checks on Escape.tla, for every string of <= N symbols over the five special characters, '#', 'x', ';', digits, letters, blank and a multi-byte character: unescape(escape_l(s)) = s for every level, the escaped form is free of the level's characters, no '&' => unchanged, success => every '&' closed. Every string is run through the real escape/partial_escape/minimal_escape/unescape (value, error-vs-value, borrowed flag, real round trip). The harness sweeps all code points 0..0x110400 in decimal, lower/upper hex and zero-padded spellings through the real unescape and TLC evaluates ValidScalar on every one of them, plus boundary spellings (signs, empty, overflow, missing ';') with output bytes checked against Utf8(n).",
             "EscapeError variant is tagged I (the property only requires an error). Feature escape-html off. The harness decides 'result is exactly the character n' with char::from_u32 for the sweep; output bytes of boundary spellings are checked by TLC.",
@@ -46,10 +50,18 @@ CHECKS = {
             "TLC checks for every input of <= K fragments and all 128 switch combinations (K small) / a pairwise-covering set (K larger) that the reader machine's events and positions equal Transform(cfg, neutral stream), where Transform states only the documented effect of each switch. The same behaviours are executed on the real reader and compared; traces with random configurations are validated. The one recorded deviation (empty Text with trim_text_end only, C16-1) is a named deviation action of the spec and is reported as KNOWN-FINDING.",
             "Bounded scope. Known finding C16-1 is accepted only in its exact recorded shape.",
             "DESIGN.md section 6 C16"),
+    "C17": ("TLA+ spec of the EncodingRef state machine (Encoding.tla) model-checked exhaustively; the same decision space and transcoded documents in every ASCII-compatible encoding recorded from the real reader (encoding feature) and validated by TLC",
+            "TLC checks exhaustively (constructor x first bytes x up to 3 declarations) that an Explicit encoding is never overridden, the first labelled declaration wins over the BOM sniff and later ones are ignored, only complete signatures count. The harness (built with the encoding feature) enumerates the same decision space on the real reader over slice/str/buffered sources, and reads documents transcoded by encoding_rs into every ASCII-compatible encoding (with/without BOM and declaration), comparing kinds and decoded payloads with the UTF-8 original, logging the encoding in force after every event and BOM presence; 0xFF injected into multi-byte encodings must give a decoding error. TLC validates every recorded run against Encoding.tla.",
+            "Byte<->character tables and label resolution are encoding_rs's (uninterpreted; the harness instantiates the round-trip axiom). model_checking level applies to the decision machine; payload equality is trace-observed.",
+            "DESIGN.md section 6 C17"),
     "C18": ("TLA+ Source.tla with Interrupted/Pending stutters and an I/O error at any refill model-checked; every refill index replayed as fault point on sync and async sources; trace validation with fault records",
             "TLC explores Source.tla with one non-interrupt I/O error allowed at any refill of any cut sequence and checks that the error surfaces as Io in a call that needed bytes beyond those delivered, with all earlier calls equal to the fault-free semantics. For every generated behaviour and five cut patterns the harness injects, at EVERY refill index, Interrupted x1/x2 (run must be identical) and a hard error (prefix + Io in the call that met it) on BufRead and AsyncBufRead sources; traces with random multi-interrupt patterns and hard errors are validated by TLC (rule: Need > delivered).",
             "Behaviour of calls after the failing call is not constrained by the property (tagged I).",
             "DESIGN.md section 6 C18"),
+    "C19": ("TLA+ spec of Writer::write_event with Indentation (Writer.tla): machine vs declarative 'plain + newline/indent before markup not following Text/CData' model-checked; replay on sync/async writers; trace validation",
+            "TLC checks for every sequence of <= M events over all ten kinds (unbalanced allowed, Eof last) x indent char x widths that the writer machine's output equals the declarative statement of the property (insertions only of newline + indent immediately before wrapped markup that is not first and does not follow Text/CData; depth saturating at zero), and that reading it back and dropping whitespace-only text gives the plain output's events. The sequences are written with Writer::new / new_with_indent (sync and async) and compared byte for byte, and read back with the real reader; sequences up to 60 events with nesting beyond the preallocated 128 indent bytes and widths 0-9 are validated by TLC. The serde serializer's indentation is checked by C06/C13 (indented and plain serializations deserialize to equal values).",
+            "Bounded scope M; traces are samples.",
+            "DESIGN.md section 6 C19"),
 }
 
 NOT_YET = "check under construction in this revision (planned: TLA+ spec + TLC + conformance replay, see DESIGN.md section 6)"
